@@ -107,6 +107,9 @@ def observed_schedule(ctx, sched, orig, sim_time, workload, worker_pools):
         if p.placement_type.name == "CANCEL_TASK":
             ctx.policy_cancelled[p.task.task_graph] = True
             ctx.fault("policy_cancel")
+    from . import z3probe
+
+    z3probe.maybe_probe(ctx, sim_time, workload, worker_pools)
     return placements
 
 
@@ -226,6 +229,7 @@ def check_joint_feasibility(ctx, now, placed, decided):
                 lst.append((now, 1 << 60, dem, "profile"))
     floating = []  # tasks without a worker: (start, end, demand, pool, label)
     pinned = []
+    kept = set()  # scheduled-ahead tasks that keep their earlier placement (not re-decided now)
     for t in ctx.all_live_tasks():
         if t.state.name == "SCHEDULED" and id(t) not in decided:
             cp = t.current_placement
@@ -247,7 +251,9 @@ def check_joint_feasibility(ctx, now, placed, decided):
                     pool = p
             if pool is None:
                 continue
+            kept.add(t.unique_name)
             _add_item(item, pool, cp.worker_id, cp.execution_strategy, pinned, floating, batches_seen)
+    retract = bool(ctx.world["policy"].get("retract", False))
     for (t, p, pool, worker, st, pt) in placed:
         if st is None or pt is None:
             continue
@@ -269,7 +275,8 @@ def check_joint_feasibility(ctx, now, placed, decided):
                 ctx.violate("C10", "plan_exceeds_capacity",
                             f"{ctx.policy_name} at t={now}: worker {led.name} holds {bad[2]} at t={bad[0]} "
                             f"needing {bad[1]} > capacity {led.total_by_type}",
-                            {"policy": ctx.policy_name, "pinned": True})
+                            {"policy": ctx.policy_name, "pinned": True, "retract": retract,
+                             "kept_scheduled_task_involved": any(lbl in kept for lbl in bad[2])})
                 return
     if floating:
         ok = _assign(floating, fixed, totals, ctx)
